@@ -286,8 +286,14 @@ def shard_main(shard, nshards, tier, scale):
         n = draw(st.integers(1, 6))
         sizes = [draw(st.sampled_from([0, 0, 10, 1500, 2040, 2048, 3000, 6000])) for _ in range(n)]
         total = sum(s_ + 220 for s_ in sizes)
-        cuts = sorted(set(draw(st.lists(st.integers(1, max(1, total)), max_size=10))))
-        return {"sizes": sizes, "cuts": cuts, "kind": "node-socket", "yield_all": draw(st.booleans()), "seed": draw(st.integers(0, 5))}
+        # read boundaries: anywhere, and at / next to multiples of the node's 2048-byte read size
+        cut = st.one_of(st.integers(1, max(1, total)),
+                        st.integers(1, max(1, total // 2048)).map(lambda k_: 2048 * k_),
+                        st.tuples(st.integers(1, max(1, total // 2048)), st.sampled_from([-1, 1])).map(lambda t_: 2048 * t_[0] + t_[1]))
+        cuts = sorted(set(draw(st.lists(cut, max_size=10))))
+        # paced: every piece arrives after the previous one has been read (nothing else is pending at that moment)
+        return {"sizes": sizes, "cuts": cuts, "kind": "node-socket", "yield_all": draw(st.booleans()), "seed": draw(st.integers(0, 5)),
+                "paced": draw(st.booleans())}
 
     def nbody(case):
         w = W.NodeWorld({"peers": [{"name": "peer1.example", "ip": ["10.1.1.1"]}],
@@ -302,7 +308,14 @@ def shard_main(shard, nshards, tier, scale):
                 extra = [R.enc_avp(1, 0, 0x40, b"u" * sz).hex()] if sz else []
                 frames.append(W.build_msg({"k": "REQ", "host": "peer1.example", "hbh": 0x5000 + i, "e2e": 0x5000 + i, "extra": extra}))
             stream = b"".join(frames)
-            w.feed(c, stream, [x for x in case["cuts"] if x < len(stream)])
+            cuts_ = [x for x in case["cuts"] if 0 < x < len(stream)]
+            if case.get("paced"):
+                pos = 0
+                for x in cuts_ + [len(stream)]:
+                    w.feed(c, stream[pos:x])
+                    pos = x
+            else:
+                w.feed(c, stream, cuts_)
             w.advance(1)
             got = [r["hbh"] for r in w.requests_seen]
             exp = [0x5000 + i for i in range(len(frames))]
@@ -312,7 +325,8 @@ def shard_main(shard, nshards, tier, scale):
             if ans != exp:
                 rec.violation("C05/node-socket/answers", case, f"answers {ans}, expected {exp}")
             big = any(sz > 2048 for sz in case["sizes"])
-            rec.case(fp("ns", tuple(case["sizes"]), tuple(case["cuts"])), ["node-socket"] + (["node-socket:frame>2048"] if big else []),
+            rec.case(fp("ns", tuple(case["sizes"]), tuple(case["cuts"])), ["node-socket"] + (["node-socket:frame>2048"] if big else []) + (["node-socket:paced"] if case.get("paced") else []) +
+                     (["node-socket:piece-of-2048k-bytes"] if case.get("paced") and any((b_ - a_) % 2048 == 0 for a_, b_ in zip([0] + cuts_, cuts_ + [len(stream)])) else []),
                      sample=lambda: case)
         finally:
             w.close()
@@ -326,7 +340,7 @@ def run(tier, scale=1.0):
     for d in hyp.pool_run(shard_main, (tier, scale)):
         rec.merge(d)
     required = {"cut-in-header": 1, "read-spans-frames": 1, "garbage-then-valid": 1, "bad-length:zero": 1,
-                "bad-length:lt20": 1, "bad-length:short": 1, "bad-length:long": 1, "big-message": 1, "node-socket:frame>2048": 1}
+                "bad-length:lt20": 1, "bad-length:short": 1, "bad-length:long": 1, "big-message": 1, "node-socket:frame>2048": 1, "node-socket:paced": 1, "node-socket:piece-of-2048k-bytes": 1}
     return finish(rec, tier=tier, level="exploration", rule=RULE, assumptions=ASSUME, t0=t0,
                   required_classes=required,
                   extra_cov={"exhaustive_part": "every 1-cut and (strided in quick, complete in thorough) 2-cut position of the short streams; every length-field value class x position x chunk mode"})
